@@ -202,6 +202,12 @@ func cmdCheck(args []string) int {
 			exit = 1
 		}
 		for i, v := range res.Violations {
+			if _, noModel := v.Inputs["_error"]; noModel {
+				// the solver produced no input for this path (its condition was not shown
+				// satisfiable): there is no counterexample to report, only an undecided path
+				inconclusive = append(inconclusive, fmt.Sprintf("%s: '%s' reached on a path without a model (path condition undecided)", h.Entry, v.Msg))
+				continue
+			}
 			kf := matchKnown(known, id, v)
 			rf := writeReplay(id, h, v, i)
 			if kf != nil {
